@@ -156,6 +156,18 @@ META["C10"] = dict(
     design_ref="DESIGN.md section 4 / C10", note=_DBNOTE + " murmur3, the leader's parallel map/sort pipeline, follower start-up timers and gRPC are outside the model; only caught-up states are observed.",
     technique="Coq proof (routing function, merge homomorphism over partitions, group confinement) + in-process cluster vs specification model differential")
 
+META["C12"] = dict(
+    text=("Theorems (Props/C12.v): in the model of the follow protocol (leader reader, per-follower spec offsets and queues, follower-side dedup, "
+          "memstore/filestore offsets; faults: clean stop, kill, restart, directory snapshot/restore, link cut, leader restart, adversarial extra "
+          "deliveries and reader restarts caused by other tables) every follower of partition p holds, at every quiescent reachable state, exactly the "
+          "accepted entries routed to p, each once, in order; redundant followers are identical; the partitions together hold every accepted entry "
+          "once; several leaders are independent; the fair schedule reaches quiescence; the one precondition (announced EarliestOffset <= persisted "
+          "table offset) is shown necessary by a refuting trace. Correspondence: fault histories on in-process clusters vs the model run on the same operations."),
+    design_ref="DESIGN.md section 4 / C12",
+    note=("Modelled: one table per source in isolation (other tables appear as adversarial extra deliveries). Not modelled: gRPC transport and server.followSource itself (transcribed in the harness shim), "
+          "WAL internals, leader WAL loss, MaxFollowAge, MaxFollowQueue back-pressure."),
+    technique="Coq proof (inductive invariant over all fault/schedule histories of the follow protocol) + in-process cluster fault-history differential against the executable model")
+
 META["C13"] = dict(
     text=("Theorems (Props/C13.v): in the model of fileStore.iterate under a deadline (file rows, then memstore rows, guard checked after "
           "every row) a scan that reports no error has delivered every row, so every omission is reported — including deadlines that "
@@ -180,5 +192,5 @@ META["C20"] = dict(
 
 NOT_APPLICABLE = [
     {"property_id": p, "reason": _PENDING}
-    for p in ["C02", "C11", "C12"]
+    for p in ["C02", "C11"]
 ]
